@@ -1,15 +1,47 @@
 """C07 -- total probes: one complete record per ended outermost call."""
 
+from .. import ir
 from ..engine1 import Engine
 from . import c03
+from .common import fn_table, gen_faults, gen_tape
 
 PROP = "C07"
 JUDGE = ("C07.",)
-PROGRAMS = ["calltree"]
+PROGRAMS = ["calltree", "forms"]
 RUNS = {"quick": 3000, "thorough": 150000}
 
 
+def gen_generator_case(rng, tier):
+    """The outermost function is a generator: its call 'ends' when it is
+    exhausted, closed, thrown into, or finalised by the collector -- the record
+    is due at that moment."""
+    prog, fns = fn_table("forms")
+    table = dict(fns)
+    qual = rng.choice(["gen", "genloop"])
+    names = [n for n in ir.bound_names(table[qual])]
+    caps = rng.sample(names, rng.randint(1, min(3, len(names))))
+    sel = {"levels": [{"fn": qual, "caps": [{"var": c, "as": c} for c in caps], "sibs": []}],
+           "focus": None, "mode": "total"}
+    ops = [{"op": "mk", "id": "p0", "sels": [sel], "inv": "C07.records", "raw": True},
+           {"op": "enter", "id": "p0"}]
+    for c in range(rng.randint(1, 3)):
+        g = f"g{c}"
+        cyc = rng.random() < 0.3
+        ops.append({"op": "gen_new", "gen": g, "fn": qual, "nargs": 1, "cycle": cyc})
+        for _ in range(rng.randint(1, 5)):
+            k = rng.choice(["gen_next"] * 4 + ["gen_send"] * 2 + ["gen_throw"])
+            ops.append({"op": k, "gen": g, "tape": gen_tape(rng, 8, odd=0.5),
+                        "faults": gen_faults(rng, 8, rng.choice([0, 0, 0, 1]))})
+        ops.append({"op": rng.choice(["gen_close", "gen_drop", "gen_throw"]), "gen": g, "tape": [], "faults": {}})
+        if cyc:
+            ops.append({"op": "gc", "tape": [], "faults": {}})
+    ops.append({"op": "exit", "id": "p0"})
+    return {"prog": "forms", "ops": ops}
+
+
 def gen(rng, tier, quarantine=()):
+    if "no-generator-outermost" not in quarantine and rng.random() < 0.25:
+        return gen_generator_case(rng, tier)
     return c03.gen(rng, tier, quarantine, total=True, inv="C07.records")
 
 
